@@ -524,7 +524,7 @@ PROPS = {
              "a rejected title: notes/status_convert.md R1-R5), repaired in /repo 0539a73; the inputs stay in its fixed list.",
         technique="Lean 4 spec-side generator (trees x choices -> Markdown, prescribed HTML) + differential run against the real library; "
                   "Lean theorems for the escape-spelling law over the writer model; spec examples x licensed rewrites",
-        components=["cmspec", "cmemph", "inlines", "linerec", "blocks", "convert"],
+        components=["cmspec", "cmemph", "inlines", "linerec", "blocks", "convert", "cmfrag"],
         explanation="Component cmspec: (1) the driver enumerates the exhaustive small scope (families of trees of depth <= 2 x every value of "
                     "their choice axes: escapes of all 95 printable characters, ATX/Setext, fences, thematic breaks, list markers/offsets/"
                     "tightness, ordered starts, link styles/label variants/titles, emphasis delimiters and contexts, code spans, adjacent "
@@ -707,3 +707,41 @@ PROPS["C09"]["note"] = PROPS["C09"]["note"].replace("shift invariance of the lin
     "shift invariance WITH list items (listItemParser.Continue needs the mid-line fact that listParser.Continue excluded IndentPosition = -1; KidsOK at "
     "Close time; the flag emptyListItemWithBlankLines outliving its list); prefix determinism incl. 'closing at EOF = closing by blank line + heading'; "
     "composition into IndependentBlocks")
+
+# ---- session 4, package cmfrag (notes/status_cmfrag.md): the first CONFORMANCE THEOREM, for a fragment of CommonMark ----
+PROPS["C02"]["claim"] = PROPS["C02"]["claim"].replace("Partial, by design.", "Partial.", 1) + (" PROVED for an explicit, infinite, decidable FRAGMENT of CommonMark "
+    "documents (GM.Props.C02Frag, package cmfrag): paragraphs of one or more lines with soft breaks and EVERY licensed spelling of every printable ASCII "
+    "character (literal, backslash escape, decimal / hexadecimal / named character reference), ATX headings of all six levels, thematic breaks of any "
+    "length with any of the three characters, fenced code blocks (backtick or tilde fences of any length, info string, arbitrary printable content lines), "
+    "any number of blank lines between and behind the blocks, and blocks that follow each other WITHOUT a blank line wherever CommonMark allows it: for "
+    "ALL such documents d the composed implementation-side model answers exactly the prescribed HTML - convertCore (spell d) = ok (expected d) "
+    "(fragment6_conforms; fragment_conforms / fragment4_conforms / fragment5_conforms are the stages) - and the fragment's Markdown and HTML are PROVED "
+    "equal to the spec-side model's own spell / expected on the embedded tree (fragment6_conforms_spec), so the theorem is a statement about "
+    "GM.Spec.CommonMark, not about a private copy. The proof is a symbolic execution of the block driver line by line, of the inline byte loop on lines "
+    "without trigger bytes, and of the renderer. Component cmfrag converts generated and enumerated fragment members with the REAL goldmark on every run "
+    "and compares with the prescribed HTML (the theorem is about the model; the model is tied by component convert). Outside the fragment (containers, "
+    "setext headings, indented code, the other inline constructs, a missing final newline) conformance is decided by correspondence as before.")
+PROPS["C02"]["explanation"] += (" Component cmfrag: 35k (quick) / 184k (thorough) members of the proved fragment (driver op `cmfrag`), real goldmark vs the "
+    "fragment's expected HTML byte for byte, plus the Lean-side checks `model = expected` and `fragment = spec model` on every case.")
+PROPS["C02"]["technique"] = ("Lean 4: conformance THEOREM for an explicit infinite fragment (symbolic execution of the composed implementation-side model against the "
+    "spec-side model's spell / expected); outside the fragment: Lean spec-side generators and references (document trees x licensed spellings; "
+    "delimiter-run reference for emphasis and code spans) + differential run against the real library; theorems for the escape-spelling law and about "
+    "the references; regenerated constants tie; spec examples x licensed rewrites")
+
+# ---- session 4, package e2e round 2 (notes/status_e2e.md): C04 at token level, renderer-side totality, wfAst end to end ----
+PROPS["C04"]["claim"] += (" At TOKEN level, unconditional (convert_safe_urls_harmless_tokens, render_safe_urls_harmless_tokens): for every source the safe-mode "
+    "HTML of convertCore tokenizes under the strict tokenizer and Spec.urlsOK - the very predicate the run-time oracle `tok urls` evaluates on real output - "
+    "holds of its tokens; the same for every tree with Spec.Inv under every extension set, footnote hrefs included (a grammar WFHtmlU = WFHtml + harmless "
+    "href/src at each start tag, and a tokenizer lemma: every non-text token read back is one of the serialised tokens).")
+PROPS["C01"]["claim"] += (" Renderer side, round 2: inline segments carry no padding (inline_children_resolve is unconditional), fenced info and HTML-block "
+    "closure segments lie inside the source for every source (block_store_info_closure_in_range); hence a Segment.Value panic in a node renderer is "
+    "unreachable and convertCore can only fail in the block or inline phase, GIVEN only that the lines of raw blocks are in range "
+    "(convert_no_value_panic_of_raw_lines, convert_renderer_side_total_of_lines) - a consequence of NodesOK, which the no-panic proof of the driver with "
+    "transformers establishes (today for sources without setext underline).")
+PROPS["C05"]["claim"] += (" END TO END (GM.Props.C05E2E): the formal statement of C05 that the harness evaluates on every parsed tree, GM.Spec.AstWF.wfAst, is "
+    "proved for the tree the composed model's parser builds (parseAst = parseDoc with segments kept, dumped in the harness dumper's format) for EVERY byte "
+    "string, given four named facts about the block store (parser_output_wellformed_partial; StoreHypsCore: lines in range, lines ordered, Document and "
+    "List nodes have no lines, a child is a ListItem exactly when its parent is a List - the first two are theorems for the transformer-free driver, the "
+    "last two need 'an opened block's node has its parser's kind'); no hypothesis about the inline phase remains: clause (a) by construction "
+    "(clause_a_by_construction), root_is_document, heading levels, inline_nodes_legal, block_node_clauses, inline segments inside their block's lines and "
+    "in order (inline_segments_inside_block_lines), unpadded, info / closure in range.")
